@@ -404,6 +404,8 @@ class GPR(Module):
             walker = GPRWalker()
             walker.visit(self)
             self._genes = deepcopy(walker.gene_set)
+        else:
+            self._genes = set()
 
     def _eval_gpr(
         self,
